@@ -22,10 +22,19 @@ use write_fonts::{dump_table, validate::Validate, FontWrite};
 pub fn norm_cmap(w: &write_fonts::tables::cmap::Cmap, back: &mut write_fonts::tables::cmap::Cmap) {
     use write_fonts::tables::cmap::CmapSubtable;
     for (a, b) in w.encoding_records.iter().zip(back.encoding_records.iter_mut()) {
-        if let (CmapSubtable::Format4(x), CmapSubtable::Format4(y)) = (&*a.subtable, &mut *b.subtable) {
-            if y.glyph_id_array.len() > x.glyph_id_array.len() && y.glyph_id_array.starts_with(&x.glyph_id_array) {
-                y.glyph_id_array.truncate(x.glyph_id_array.len());
+        match (&*a.subtable, &mut *b.subtable) {
+            (CmapSubtable::Format4(x), CmapSubtable::Format4(y)) => {
+                if y.glyph_id_array.len() > x.glyph_id_array.len() && y.glyph_id_array.starts_with(&x.glyph_id_array) {
+                    y.glyph_id_array.truncate(x.glyph_id_array.len());
+                }
             }
+            // format 10: same (`num_chars` is not used to size the array)
+            (CmapSubtable::Format10(x), CmapSubtable::Format10(y)) => {
+                if y.glyph_id_array.len() > x.glyph_id_array.len() && y.glyph_id_array.starts_with(&x.glyph_id_array) {
+                    y.glyph_id_array.truncate(x.glyph_id_array.len());
+                }
+            }
+            _ => {}
         }
     }
 }
@@ -156,8 +165,9 @@ where
     Some(b1)
 }
 
-fn load_covered() -> std::collections::BTreeSet<String> {
+fn load_report() -> (std::collections::BTreeSet<String>, Vec<String>) {
     let mut out = std::collections::BTreeSet::new();
+    let mut notes = vec![];
     let p = std::env::var("C04_REPORT").unwrap_or_else(|_| "/verif/out/C04.writers.py.json".into());
     if let Ok(txt) = std::fs::read_to_string(&p) {
         if let Ok(v) = serde_json::from_str::<serde_json::Value>(&txt) {
@@ -168,14 +178,35 @@ fn load_covered() -> std::collections::BTreeSet<String> {
                     }
                 }
             }
+            let n = |k: &str| v.get(k).and_then(|x| x.as_u64()).unwrap_or(0);
+            notes.push(format!(
+                "translator: {} of {} generated FontWrite impls translated to (writer program, reader layout) pairs ({} writer statements consumed); {} round-trip unconditionally (compat), {} only under listed count/length conditions (compatU); {} NOT covered by the theorems",
+                n("pairs_translated"), n("writers_in_generated"), n("writer_statements_consumed"), n("pairs_unconditional"),
+                n("pairs_translated") - n("pairs_unconditional"), n("pairs_not_covered")
+            ));
+            if let Some(m) = v.get("not_covered").and_then(|x| x.as_object()) {
+                let mut items: Vec<String> = m.iter().map(|(k, r)| format!("{k} ({})", r.as_str().unwrap_or("?").chars().take(90).collect::<String>())).collect();
+                items.sort();
+                notes.push(format!("translator NOT covered ({}): {}", items.len(), items.join("; ")));
+            }
+            if let Some(m) = v.get("assumed").and_then(|x| x.as_object()) {
+                let mut items: Vec<String> = m.iter().map(|(k, r)| format!("{k}: {}", r.as_array().map(|a| a.iter().filter_map(|x| x.as_str()).collect::<Vec<_>>().join(" & ")).unwrap_or_default())).collect();
+                items.sort();
+                notes.push(format!("count/length conditions the generated writers do not establish ({} pairs): {}", items.len(), items.join("; ")));
+            }
+            if let Some(a) = v.get("computed_fields").and_then(|x| x.as_array()) {
+                notes.push(format!("hand-written computed fields treated as parameters: {}", a.iter().filter_map(|x| x.as_str()).collect::<Vec<_>>().join(", ")));
+            }
         }
     }
-    out
+    (out, notes)
 }
 
 fn run(cfg: &Config, s: &mut Session) {
+    let (covered, notes) = load_report();
+    s.notes.extend(notes);
     let mut cx = Ctx {
-        covered: load_covered(),
+        covered,
         per_type_cap: if cfg.thorough() { 4000 } else { 400 },
         per_type: Default::default(),
         seen: Default::default(),
